@@ -71,6 +71,11 @@ GADGETS = {
     "cascade": (2, ["$0, @", "$1, $0"]),
     "selfact": (1, ["$0, $0 | @"]),
     "toggle": (1, ["$0, !$0"]),
+    # a feedback loop whose sign is set by an external regulator (same variables, different dynamics per input value)
+    "xnor_ctl": (2, ["$0, ($1 & @) | (!$1 & !@)", "$1, $0"]),
+    "xor_ctl": (2, ["$0, ($1 & !@) | (!$1 & @)", "$1, $0"]),
+    # the motif-avoidant module gated by an external regulator
+    "maa_gated": (3, ["$0, ((!$0 & !$1) & @) | $2", "$1, ((!$0 & !$1) & @) | $2", "$2, $0 & $1"]),
 }
 # a classic 3-variable module with a motif-avoidant attractor possibility
 MAA3 = (3, ["$0, (!$0 & $1) | ($0 & !$2) | ($1 & !$2)", "$1, (!$1 & $2) | ($1 & !$0) | ($2 & !$0)",
@@ -128,10 +133,23 @@ def free_inputs_variant(rng, rules):
         out.append(l)
     return "\n".join(out) if out else rules
 
+def latch_network(rng, n):
+    """x_i := x_i | (implications of other variables): only trap spaces 'these variables are on'; many skip-level edges"""
+    rules = []
+    for i in range(n):
+        terms = []
+        for _ in range(rng.randint(1, 2)):
+            others = rng.sample([j for j in range(n) if j != i], rng.randint(1, min(3, n - 1)))
+            terms.append("(" + " & ".join(f"x{j}" for j in others) + ")")
+        rules.append(f"x{i}, x{i} | " + " | ".join(terms))
+    return "\n".join(rules)
+
 def gen_network(rng, nmin=2, nmax=6):
     r = rng.random()
-    if r < 0.55:
+    if r < 0.5:
         return random_network(rng, rng.randint(nmin, nmax))
+    if r < 0.58 and nmax >= 4:
+        return latch_network(rng, rng.randint(max(nmin, 4), nmax))
     return modular_network(rng, rng.randint(max(nmin, 2), nmax))
 
 # ---------------------------------------------------------------- real side helpers
